@@ -8,13 +8,14 @@ from gen import date as G
 def main():
     chk = common.Check('C18')
     import date_common as D
-    proved = chk.prove('I18n.Props.C18', generated=('date', 'gettextdate'), extra_targets=())
-    problems = ' '.join(p for p in chk.lean.problems if 'translator(gettextdate)' not in p)
+    proved = chk.prove('I18n.Props.C18', generated=('date', 'gettextdate', 'checkdates'), extra_targets=())
+    problems = ' '.join(p for p in chk.lean.problems if 'translator(gettextdate)' not in p and 'translator(checkdates)' not in p)
     # the tie by translation: fix_date_format / parse_date regenerated from the current lib/gettext.py and proved equal to the model (Props/C18Tie.lean)
-    tie_ok = common.prove_tie(chk, 'I18n.Props.C18Tie', ('gettextdate',),
+    tie_ok = common.prove_tie(chk, 'I18n.Props.C18Tie', ('gettextdate', 'checkdates'),
                               'fix_date_format / parse_date regenerated from the current lib/gettext.py (Generated/GettextDate.lean) are no longer proved equal to '
-                              'Date.fix / Date.parseCanon (generated_fix_date_format_eq_model, generated_parse_date_eq_model and the restated headline theorems)')
-    driver_ok = os.path.exists(common.driver_path()) and not any('untranslatable' in s for k, s in chk.lean.translation.items() if k != 'gettextdate') \
+                              'Date.fix / Date.parseCanon, or Checker.check_dates regenerated from the current lib/check/__init__.py (Generated/CheckDates.lean) to Date.checkDates '
+                              '(generated_fix_date_format_eq_model, generated_parse_date_eq_model, generated_check_dates_eq_model and the restated headline theorems)')
+    driver_ok = os.path.exists(common.driver_path()) and not any('untranslatable' in s for k, s in chk.lean.translation.items() if k not in ('gettextdate', 'checkdates')) \
         and 'Driver' not in problems and 'I18n.Model' not in problems and 'I18n.Generated' not in problems
     rng = chk.rng
     abbrs = D.abbreviations()
@@ -73,6 +74,8 @@ def main():
         lines = [c.line() for c in ctxs]
         outs = [D.impl_check(c) for c in ctxs]
         dis, _ = chk.stream('date-check', lines, outs)
+        if tie_ok:      # the same contexts through Checker.check_dates regenerated from lib/check/__init__.py
+            chk.stream('date-check-generated', [l.replace('date check ', 'date gcheck ', 1) for l in lines], outs)
         bad_ctx = [ctxs[i] for i in dis]
         kinds = {}
         for o in outs:
@@ -97,6 +100,8 @@ def main():
             lines = [c.line() for c, _ in fcases]
             outs = [D.impl_file(c, p) for (c, _), p in zip(fcases, fpaths)]
             dis, _ = chk.stream('date-file', lines, outs)
+            if tie_ok:
+                chk.stream('date-file-generated', [l.replace('date check ', 'date gcheck ', 1) for l in lines], outs)
             bad_files = dis
         file_reports = []
         for i in list(bad_files) + list(range(len(fcases))):
@@ -161,7 +166,8 @@ def main():
                  'the correspondence harness (tools/checks/date_common.py, Driver/Date.lean); misc.utc_now is patched in the harness only',
                  'tie by translation + proof: tools/translate/gettextdate2lean.py (over tools/translate/pytr core + objfn) is trusted; the kit Model/DatePy.lean is shared by both sides '
                  'of the equalities (the scanners standing for _parse_date / _search_for_date_boilerplate, parseCanon standing for strptime, str.strip, the dumped _timezones); '
-                 'fix_date_format and parse_date regenerated from the current lib/gettext.py are PROVED equal to Date.fix / Date.parseCanon (Props/C18Tie.lean) and run against CPython in the *-generated streams'],
+                 'fix_date_format and parse_date regenerated from the current lib/gettext.py are PROVED equal to Date.fix / Date.parseCanon (Props/C18Tie.lean) and run against CPython in the *-generated streams; '
+                 'tools/translate/checkdates2lean.py likewise for Checker.check_dates (ctx.metadata, misc.utc_now, self.tag, datetime comparison as kit primitives over the model Ctx)'],
         explanation='Proved for all strings s and all hints (Props/C18.lean): fix_canonical, fix_idempotent, fix_preserves, written_unique, '
                     'fix_accepts (completeness), fix_rejects (exact classification of the five outcomes; the assertion never fails; the only '
                     'outcome besides ok / DateSyntaxError / BoilerplateDate is the ValueError for a malformed hint), fix_tool_outcomes, '
@@ -176,7 +182,8 @@ def main():
                     'TIE BY TRANSLATION (Props/C18Tie.lean): Generated/GettextDate.lean is rewritten from the current lib/gettext.py on every run (fix_date_format, parse_date) and proved '
                     'equal to the model for all strings and hints, results and exception classes (generated_fix_date_format_eq_model, generated_parse_date_eq_model); fix_canonical, '
                     'fix_idempotent, fix_preserves, fix_accepts, fix_rejects (also: no AssertionError, no KeyError, the kit never used outside its domain), fix_tool_outcomes, parse_canon_iff are '
-                    'restated about the regenerated definitions (*_generated); check_dates stays hand-modelled (date-check / date-file streams). Details: DESIGN-notes/date.md')
+                    'restated about the regenerated definitions (*_generated); Checker.check_dates is regenerated as well (Generated/CheckDates.lean, tools/translate/checkdates2lean.py) and proved equal to '
+                    'Date.checkDates for all contexts (generated_check_dates_eq_model), never raising (check_dates_nocrash_generated) and of the proved shape (check_dates_shape_generated). Details: DESIGN-notes/date.md')
 
 if __name__ == '__main__':
     common.main_wrapper(main)
